@@ -1522,7 +1522,63 @@ func mustTile(key string) TileID {
 // with real chains; every acknowledgement's SCT is verified independently from
 // the submitted chain, resubmissions must get byte-identical SCTs, also after a
 // restart, and refused submissions leave no leaf.
+// httpPool: admission control seen through the HTTP front door with a bounded
+// pool: low-priority certificates (they carry SCTs) fill the pool, high-priority
+// ones evict them one by one, then everything is refused; the evicted
+// submitters must get the retry-later answer.
+func httpPool(r *Runner) {
+	for _, ps := range []int{1, 2} {
+		r.Scenario(fmt.Sprintf("http/pool/size%d", ps), false, func(w *World) error {
+			a, err := Setup(w, 0, ps)
+			if err != nil {
+				return err
+			}
+			w.Gate(false)
+			root := certs.NewRoot("verif root", certs.CAOptions{})
+			inter := root.NewIntermediate("verif intermediate", certs.CAOptions{})
+			if err := a.Log.SetRootsFromPEM(a.Ctx(), certs.PEM(root)); err != nil {
+				return err
+			}
+			w.Gate(true)
+			// low priority over HTTP: a certificate that already carries an SCT (a list with one 4-byte element)
+			low := func() *certs.Leaf {
+				return inter.Issue(certs.LeafOptions{EKU: certs.ServerAuth, SCTList: []byte{0, 6, 0, 4, 0xde, 0xad, 0xbe, 0xef}})
+			}
+			high := func() *certs.Leaf { return inter.Issue(certs.LeafOptions{EKU: certs.ServerAuth}) }
+			var subs []*Sub
+			var leaves []*certs.Leaf
+			post := func(l *certs.Leaf, isLow bool) {
+				leaves = append(leaves, l)
+				subs = append(subs, w.SubmitHTTPDriven(a, l.Chain(false), l.FullChain(), "add-chain", isLow))
+				w.Quiesce()
+			}
+			for i := 0; i < ps; i++ {
+				post(low(), true) // fill the pool with low-priority entries
+			}
+			post(low(), true) // full: refused
+			for i := 0; i < ps; i++ {
+				post(high(), false) // each evicts one low-priority entry
+			}
+			post(high(), false) // full, nothing to evict: refused
+			post(low(), true)   // refused
+			t := w.Go("round", a.RoundMust)
+			if !w.Drive(t, FIFO) {
+				return fmt.Errorf("round stuck")
+			}
+			w.Check("allDone", subs...)
+			// the pool is empty again: an evicted certificate is taken now
+			again := w.SubmitHTTPDriven(a, leaves[0].Chain(false), leaves[0].FullChain(), "add-chain", true)
+			w.Quiesce()
+			t = w.Go("round2", a.RoundMust)
+			w.Drive(t, FIFO)
+			w.Check("allDone", again)
+			return nil
+		})
+	}
+}
+
 func FamilyHTTP(r *Runner) {
+	httpPool(r)
 	for _, base := range []int{0, 254} {
 		for _, order := range []string{"fifo", "lifo"} {
 			r.Scenario(fmt.Sprintf("http/b%d/%s", base, order), false, func(w *World) error {
